@@ -5,6 +5,7 @@ imported under stub parent packages so that no other nunavut module (and no pyds
 Provides: TemplateSet (all templates of the tree), a guard-context walker, an expression normaliser, macro tables.
 """
 import importlib
+import os
 import pathlib
 import sys
 import types
@@ -75,6 +76,19 @@ class Tmpl:
         return f"<Tmpl {self.rel}>"
 
 
+def _equiv_transform(N, ast) -> int:
+    """Control only (NVSA_J2_EQUIV=1, used by the self-test): rewrite every `{% if c %}A{% else %}B{% endif %}` without elif of
+    a parsed template into the equivalent `{% if not c %}B{% else %}A{% endif %}`.  Checks must decide the same."""
+    n = 0
+    for node in list(ast.find_all(N.If)):
+        if node.else_ and not node.elif_:
+            node.body, node.else_ = node.else_, node.body
+            t = node.test
+            node.test = t.node if isinstance(t, N.Not) else N.Not(t, lineno=getattr(t, "lineno", None))
+            n += 1
+    return n
+
+
 class TemplateSet:
     def __init__(self, root: pathlib.Path):
         self.root = pathlib.Path(root)
@@ -92,6 +106,8 @@ class TemplateSet:
             except Exception as e:
                 raise AnalysisError(f"template {p} does not parse with the bundled parser: {type(e).__name__}: {e}")
             rel = p.relative_to(self.root).as_posix()
+            if os.environ.get("NVSA_J2_EQUIV") == "1":
+                _equiv_transform(self.nodes, ast)
             self.templates.append(Tmpl(lang, kind, p, rel, src, ast))
         if len(self.templates) < 30:
             raise AnalysisError(f"only {len(self.templates)} templates found under {langdir}")
